@@ -15,6 +15,8 @@ What is replaced (and only this):
                             loop is single-threaded), head of the queue first
   * kazoo's callback thread -> `Proc.wq`: watch events of a client are
                             delivered one at a time, in order, as their own task
+  * OS threads           -> greenlets scheduled by vf.zkproto.sched (logcontext's
+                            thread-local stack is swapped per task)
   * process exit / supervisor restart -> `expire` / `crash` + `boot`
   * sysinfo.hostname, trace.app.zk._HOSTNAME -> the simulated host's name
   * utils.sys_exit       -> raises (reported as a violation, never exits the shard)
@@ -108,6 +110,12 @@ class _Handler(zkfake._Handler):     # pylint: disable=protected-access
         self.world = world
         self.proc = proc
 
+    def lock_object(self):
+        return _sched.CoopLock()
+
+    def rlock_object(self):
+        return _sched.CoopLock(reentrant=True)
+
     def spawn(self, func, *a, **kw):
         dw = getattr(func, '__self__', None)
         return self.world.sched.spawn(
@@ -160,7 +168,7 @@ class Host:
 
 
 class World:
-    def __init__(self, rng, scn, count, script=None):
+    def __init__(self, rng, scn, count, script=None, base=None):
         from treadmill import services
         from treadmill import utils
         from treadmill import zkutils
@@ -188,9 +196,19 @@ class World:
         self.done_actions = set()
         self.expiries_left = scn['expiries']
         self.crashes_left = scn['crashes']
-        self.bias = {h: rng.choice([0.3, 1.0, 1.0, 3.0]) for h in _scenario.HOSTS}
+        # scheduling policy of this case: uniform / one host runs ahead of the
+        # other / the window between a handler's read of a node and its
+        # following write is stretched (the handler is rarely picked there)
+        self.policy = rng.choice(['uniform', 'uniform', 'skew', 'stretch', 'stretch'])
+        self.bias = {h: 1.0 for h in _scenario.HOSTS}
+        if self.policy == 'skew':
+            self.bias = {h: rng.choice([0.1, 0.3, 1.0, 3.0]) for h in _scenario.HOSTS}
 
-        self.tmp = tempfile.mkdtemp(prefix='vf-')
+        # `base`: a directory of the caller (one per shard run, removed by the
+        # caller) in which the two hosts' service directories are reused from
+        # case to case; without it the world makes and removes its own
+        self.own_tmp = base is None
+        self.tmp = tempfile.mkdtemp(prefix='vf-') if base is None else base
         self._sys_exit = utils.sys_exit
         utils.sys_exit = self._exit_called
         try:
@@ -204,7 +222,11 @@ class World:
             self.srv.deliver = lambda limit=None: 0       # watch events are delivered by the scheduler only
             self.srv.keep_log = True
             self.oracle = _oracle.Oracle(self.srv, self.cont, self.count, self.report)
-            self.sched = _sched.Scheduler(on_exec=self.oracle.pre_op)
+            from treadmill import logcontext
+            self._lc = logcontext.LOCAL_
+            self._lc_main = logcontext.LOCAL_.ctx
+            self.sched = _sched.Scheduler(on_exec=self.oracle.pre_op, on_enter=self._enter_task,
+                                          on_leave=self._leave_task)
             self.srv.on_op = self.sched.yield_point
             self.svc_sids = set()
 
@@ -220,7 +242,7 @@ class World:
             self.hosts = {}
             for name in _scenario.HOSTS:
                 h = Host(name, os.path.join(self.tmp, name))
-                os.makedirs(os.path.join(h.root, 'apps'))
+                os.makedirs(os.path.join(h.root, 'apps'), exist_ok=True)
                 h.svc = services.ResourceService(
                     service_dir=os.path.join(h.root, 'presence_svc'), impl=impl_class())
                 h.evzk = self.srv.client('events-' + name)
@@ -246,6 +268,15 @@ class World:
             return
         self.violations.append((mechanism, message, witness, len(self.trace)))
 
+    def _enter_task(self, task):
+        # logcontext keeps a per-thread stack; every task is its own thread of
+        # control (request handlers run in the process' main thread, whose
+        # stack exists since import time)
+        self._lc.ctx = task.local.setdefault('logctx', [])
+
+    def _leave_task(self, _task):
+        self._lc.ctx = self._lc_main
+
     def _exit_called(self, code):
         cause = sys.exc_info()[1]
         raise ExitCalled(code, cause)
@@ -264,7 +295,25 @@ class World:
         finally:
             utils.sys_exit = self._sys_exit
             self.srv.on_op = None
-            shutil.rmtree(self.tmp, ignore_errors=True)
+            if self.own_tmp:
+                shutil.rmtree(self.tmp, ignore_errors=True)
+            else:
+                self._wipe()
+
+    def _wipe(self):
+        """Leave the reused host directories as a fresh host has them: no
+        request links, no container directories."""
+        for name in _scenario.HOSTS:
+            root = os.path.join(self.tmp, name)
+            rsrc = os.path.join(root, 'presence_svc', 'resources')
+            if os.path.isdir(rsrc):
+                for entry in os.listdir(rsrc):
+                    full = os.path.join(rsrc, entry)
+                    if os.path.islink(full) or not os.path.isdir(full):
+                        os.unlink(full)
+                    else:       # reply written for a request whose link was already removed
+                        shutil.rmtree(full, ignore_errors=True)
+            shutil.rmtree(os.path.join(root, 'apps'), ignore_errors=True)
 
     def trace_hash(self):
         return hashlib.sha1('|'.join(self.trace).encode()).hexdigest()[:16]
@@ -404,7 +453,11 @@ class World:
         out = []
         for t in self.sched.live:
             host = t.owner.host.name
-            out.append(('run:' + t.name, WEIGHTS['run'] * self.bias[host], ('run', t)))
+            weight = WEIGHTS['run'] * self.bias[host]
+            if (self.policy == 'stretch' and t.pending is not None
+                    and t.pending[1] in ('set', 'delete', 'get_children')):
+                weight *= 0.06
+            out.append(('run:' + t.name, weight, ('run', t)))
         for name in _scenario.HOSTS:
             h = self.hosts[name]
             p = h.proc
@@ -480,13 +533,7 @@ class World:
         host = proc.host
         path = os.path.join(host.svc._rsrc_dir, rid)        # pylint: disable=protected-access
         handler = host.svc._on_deleted if ev == 'deleted' else host.svc._on_created   # pylint: disable=protected-access
-
-        def fn():
-            # the real handlers run in the process' main thread, where
-            # logcontext's thread-local stack was initialised at import time
-            from treadmill import logcontext
-            logcontext.LOCAL_.ctx = []
-            return handler(proc.impl, path)
+        fn = lambda: handler(proc.impl, path)
         cid = self.cont[rid]['cid'] if rid in self.cont else rid
         task = self.sched.spawn('%s:%s:%s' % (host.name, ev, cid), 'req', proc, fn,
                                 meta={'ev': ev, 'rid': rid})
@@ -536,8 +583,8 @@ class World:
         zkutils.put(self.master, '/scheduled/' + inst, self._manifest(c))
         zkutils.put(self.master, '/placement/%s/%s' % (c['host'], inst), {'expires': 0})
         host = self.hosts[c['host']]
-        cdir = os.path.join(host.root, 'apps', c['rsrc_id'])
-        client = host.svc.make_client(os.path.join(cdir, 'resources', 'presence'))
+        # (the runtime uses <container>/resources/presence; one level is enough here)
+        client = host.svc.make_client(os.path.join(host.root, 'apps', c['cid']))
         host.clients[c['cid']] = client
         req = {'endpoints': [dict(e) for e in c['endpoints']], 'vip': {'ip0': '192.168.0.1', 'ip1': '192.168.0.2'}}
         if c['identity_group']:
@@ -659,8 +706,8 @@ class World:
                     blocking = (path, node)
                     break
             if blocking is None:
-                path, node = c['paths'][-1][1], None
-                why = 'all-nodes-own'
+                path, node = c['paths'][0][1], self.srv.nodes.get(c['paths'][0][1])
+                why = 'nodes-owned-by-own-session'
             else:
                 path, node = blocking
                 if node is not None and self.srv.sessions.get(node.owner):
@@ -674,7 +721,7 @@ class World:
             self.report(
                 'stuck-request:' + why,
                 'create request of container %s on %s has no reply although nothing is enabled any more '
-                '(first node it does not own: %s, %s)' % (
+                '(node it waits for / first node it does not own: %s, %s)' % (
                     c['cid'], c['host'], path,
                     'absent' if node is None else 'owner %#x' % node.owner),
                 dict(container=c['cid'], host=c['host'], path=path))
